@@ -80,12 +80,15 @@ func VerifC12MetaGetters() {
 		// known defect: decodeUint64 reads 8 bytes without checking the length
 		verifKnownFinding("C12-meta-uint64-short", L < 8)
 		u, ok := m.GetUint64(MetadataKey_Epoch)
-		verifAssert(ok, "C12.meta.getters: GetUint64 did not find the key")
-		want := uint64(0)
-		for i := 7; i >= 0; i-- {
-			want = want<<8 | uint64(val[i])
+		// a value that AddUint64 cannot have written (length != 8) may be reported as absent
+		verifAssert(ok || L != 8, "C12.meta.getters: GetUint64 did not find an 8-byte value")
+		if ok {
+			want := uint64(0)
+			for i := 7; i >= 0; i-- {
+				want = want<<8 | uint64(val[i])
+			}
+			verifAssert(u == want, "C12.meta.getters: GetUint64 is not the little-endian value of the first 8 bytes")
 		}
-		verifAssert(u == want, "C12.meta.getters: GetUint64 is not the little-endian value of the first 8 bytes")
 		_, ok = m.GetUint64([]byte("missing"))
 		verifAssert(!ok, "C12.meta.getters: GetUint64 found a missing key")
 	case 1:
